@@ -1706,7 +1706,8 @@ func parseFieldStrValue(s string) (string, error) {
 		ret.WriteString(s)
 		return ret.String(), nil
 	}
-	return "", nil
+	// a value that holds a quote but does not start with one is neither a string nor a number
+	return "", fmt.Errorf("invalid field value %s", s)
 }
 
 func nextUnescapedChar(s string, ch byte, noEscapeChars, enableTagArray, tagParse bool) int {
